@@ -39,6 +39,18 @@ type Case struct {
 
 var zones = []*time.Location{time.UTC, time.FixedZone("A", 3600), time.FixedZone("B", -5*3600-1800), time.FixedZone("C", 14*3600)}
 
+func init() {
+	// a location with daylight-saving transitions (whole-day durations across an
+	// offset change must still add exact nanoseconds), when the zone database is there
+	for _, name := range []string{"America/New_York", "Europe/Paris"} {
+		if l, err := time.LoadLocation(name); err == nil {
+			zones = append(zones, l)
+		}
+	}
+	// the process's local zone must not matter: make it something that is not UTC
+	time.Local = time.FixedZone("LOCALX", 5*3600+1800)
+}
+
 func zoneID(l *time.Location) int {
 	for i, z := range zones {
 		if z.String() == l.String() {
@@ -144,14 +156,22 @@ func main() {
 	intB := []*big.Int{big.NewInt(0), big.NewInt(1), big.NewInt(-1), big.NewInt(2), big.NewInt(-7), big.NewInt(1 << 31), big.NewInt(math.MaxInt64), big.NewInt(math.MinInt64),
 		new(big.Int).Lsh(big.NewInt(1), 63), new(big.Int).Lsh(big.NewInt(1), 64), new(big.Int).Neg(new(big.Int).Lsh(big.NewInt(1), 70))}
 
+	// whole days (calendar arithmetic must not replace exact addition), instants next to DST changes
+	durB = append(durB, 86400e9, -86400e9, 2*86400e9, 7*86400e9)
+	timeB = append(timeB, 1615636800e9, 1636261200e9, 1616893200e9)
 	if *small {
-		durB = []int64{0, 1, -2500000001, 3600e9, math.MaxInt64, math.MinInt64 + 1}
-		timeB = []int64{0, -1, 1700000000123456789, math.MaxInt64, math.MinInt64 + 1}
+		durB = []int64{0, 1, -2500000001, 3600e9, math.MaxInt64, math.MinInt64 + 1, 86400e9, -2 * 86400e9}
+		timeB = []int64{0, -1, 1700000000123456789, math.MaxInt64, math.MinInt64 + 1, 1615636800e9, 1636261200e9}
 		intB = []*big.Int{big.NewInt(0), big.NewInt(-7), big.NewInt(2), big.NewInt(math.MinInt64), new(big.Int).Lsh(big.NewInt(1), 63)}
 	}
 	var pool []operand
 	for i, t := range timeB {
 		pool = append(pool, mkTime(t, i%len(zones)))
+		if t == 1615636800e9 || t == 1636261200e9 || t == 1616893200e9 {
+			for z := 4; z < len(zones); z++ {
+				pool = append(pool, mkTime(t, z))
+			}
+		}
 	}
 	pool = append(pool, mkTime(1700000000123456789, 2)) // same instant, other zone
 	for _, d := range durB {
@@ -184,8 +204,10 @@ func main() {
 		switch r.Intn(10) {
 		case 0, 1, 2:
 			return mkTime(mag(), r.Intn(len(zones)))
-		case 3, 4, 5, 6:
+		case 3, 4, 5:
 			return mkDur(mag())
+		case 6:
+			return mkDur(int64(r.Intn(41)-20) * 86400e9) // whole days
 		case 7:
 			z := big.NewInt(mag())
 			if r.Intn(4) == 0 {
@@ -256,6 +278,9 @@ func main() {
 				"time.from_timestamp(t.unix, t.nanosecond).unix_nano == t.unix_nano",
 				"t.in_location('UTC') == t and {t: 1}[t.in_location('UTC')] == 1 and t.in_location('UTC') in set([t])",
 				"(t + time.hour) - time.hour == t and (t - time.from_timestamp(0)) + time.from_timestamp(0) == t",
+				"(lambda u: time.time(year=u.year, month=u.month, day=u.day, hour=u.hour, minute=u.minute, second=u.second, nanosecond=u.nanosecond) == u)(t.in_location('UTC'))",
+				"t.in_location('') == t and str(t.in_location('')) == str(t.in_location('UTC'))",
+				"str(time.time(year=2001, month=2, day=3, hour=4)) == str(time.time(year=2001, month=2, day=3, hour=4, location='UTC'))",
 			} {
 				v, err := starlark.Eval(thread, "c19", src, env)
 				hx.Emit(Case{"law", src, o.d, V{}, describe(v, err)})
